@@ -327,6 +327,17 @@ func allObjects(m Mach) []string {
 	return r
 }
 
+func bits(b []bool) string {
+	r := make([]byte, len(b))
+	for i, x := range b {
+		r[i] = '0'
+		if x {
+			r[i] = '1'
+		}
+	}
+	return string(r)
+}
+
 // snapshot of everything observable in a VM, as a comparable string (object=value ... flags ... pcs)
 func snapshot(m Mach, vm *bondmachine.VM) string {
 	var sb strings.Builder
@@ -334,9 +345,9 @@ func snapshot(m Mach, vm *bondmachine.VM) string {
 		o, _ := resolveObj(m, name)
 		fmt.Fprintf(&sb, "%s=%d ", name, u64(*o.slot(vm)))
 	}
-	fmt.Fprintf(&sb, "iv=%v ir=%v ov=%v or=%v", vm.InputsValid, vm.InputsRecv, vm.OutputsValid, vm.OutputsRecv)
+	fmt.Fprintf(&sb, "iv=%s ir=%s ov=%s or=%s", bits(vm.InputsValid), bits(vm.InputsRecv), bits(vm.OutputsValid), bits(vm.OutputsRecv))
 	for x, p := range vm.Processors {
-		fmt.Fprintf(&sb, " pc%d=%d piv=%v por=%v pov=%v pir=%v", x, p.Pc, p.InputsValid, p.OutputsRecv, p.OutputsValid, p.InputsRecv)
+		fmt.Fprintf(&sb, " pc%d=%d piv%d=%s por%d=%s pov%d=%s pir%d=%s", x, p.Pc, x, bits(p.InputsValid), x, bits(p.OutputsRecv), x, bits(p.OutputsValid), x, bits(p.InputsRecv))
 	}
 	return sb.String()
 }
@@ -348,6 +359,7 @@ type tickOut struct {
 	Pre   string   // state after the injections of this tick, before the step ("" on the shutdown tick)
 	Post  string   // state at the end of the iteration
 	Shows []uint64 // decoded values printed on this tick, in print order
+	ShowFmt []string // oracle only: display format of each shown value
 	Row   map[string]uint64
 	HasRow bool
 	RowTick string // first column when config:get_ticks is active ("" otherwise)
@@ -358,6 +370,9 @@ type runOut struct {
 	Header []string
 	Ticks  []tickOut
 	Shut   int // iteration at which the run shut down on a valid output (-1: ran out of ticks)
+	Fired  map[string]int // oracle only: how many times rules of an event class fired
+	ColFmt map[string]string // oracle only: display format per report column
+	GetTicks bool // oracle only: config:get_ticks active
 	// raw text the real CLI would print (stdout show lines, CSV lines) for the CLI comparison
 	Stdout []string
 	CSV    [][]string
@@ -712,6 +727,7 @@ var emptyBox = new(simbox.Simbox)
 // active time rule names an object the machine does not have (the run may legitimately be refused).
 func predict(m Mach, bm *bondmachine.Bondmachine, rules []mrule, interactions, stopOn int, sem semantics) (out runOut) {
 	out.Shut = -1
+	out.Fired = map[string]int{}
 	var prs []prule
 	for _, r := range rules {
 		p := prule{mrule: r}
@@ -796,8 +812,11 @@ func predict(m Mach, bm *bondmachine.Bondmachine, rules []mrule, interactions, s
 			addTo(&slots, p.Object, p.Extra)
 		}
 	}
+	out.ColFmt = map[string]string{}
+	out.GetTicks = getTicks
 	for _, c := range cols {
 		out.Header = append(out.Header, c.name)
+		out.ColFmt[c.name] = c.format
 	}
 
 	vm := new(bondmachine.VM)
@@ -851,9 +870,7 @@ func predict(m Mach, bm *bondmachine.Bondmachine, rules []mrule, interactions, s
 					return
 				}
 				*p.obj.slot(vm) = regVal(m.Rsize, v)
-				if p.obj.input >= 0 && p.Class == "absolute" {
-					vm.InputsValid[p.obj.input] = true
-				} else if p.obj.input >= 0 {
+				if p.obj.input >= 0 { // presenting a value on an external input raises its valid flag
 					vm.InputsValid[p.obj.input] = true
 				}
 			}
@@ -896,6 +913,7 @@ func predict(m Mach, bm *bondmachine.Bondmachine, rules []mrule, interactions, s
 			if p.Class == "config" || p.Action == "set" || !fires(p) {
 				continue
 			}
+			out.Fired[p.Class]++
 			if p.Action == "show" {
 				shown[p.Object] = true
 			}
@@ -909,6 +927,7 @@ func predict(m Mach, bm *bondmachine.Bondmachine, rules []mrule, interactions, s
 		for _, s := range slots {
 			if shown[s.name] {
 				to.Shows = append(to.Shows, u64(*s.obj.slot(vm)))
+				to.ShowFmt = append(to.ShowFmt, s.format)
 			}
 		}
 		row := map[string]uint64{}
@@ -1015,4 +1034,14 @@ func compareRuns(got, want runOut, byName bool) string {
 		}
 	}
 	return ""
+}
+
+// snapField reads one "name=value" (or "name=[...]") field out of a snapshot string.
+func snapField(snap, name string) (string, bool) {
+	for _, f := range strings.Split(snap, " ") {
+		if strings.HasPrefix(f, name+"=") {
+			return f[len(name)+1:], true
+		}
+	}
+	return "", false
 }
